@@ -9,9 +9,14 @@ THEOREMS = {"Properties.C07": [
     "C07_k_prefix_served", "C07_k_monotone", "C07_dist_lt_mono", "C07_k_monotone_ip", "C07_k_monotone_nonvacuous", "C07_no_store_after_invalidate", "C07_hit_same_or_similar",
     "C07_old_quantisation_saturates", "qcache_len_bound", "qcache_cap0_unbounded",
     "C07_oracle_premises_satisfiable", "C07_entry_valid_ip", "C07_engine_nonvacuous",
-    "C07_interleaving_nonvacuous", "C07_prefilter_nonvacuous"]}
+    "C07_interleaving_nonvacuous", "C07_prefilter_nonvacuous"],
+    "Properties.C07race": ["C07_stored_hot_distance_fresh", "C07_hot_race_step", "C07_old_validation_refuted", "C07_hot_race_nonvacuous"]}
 
-PINS = {"Properties.C07": {
+PINS = {"Properties.C07race": {
+    "_preamble": "From Coq Require Import List NArith Bool. From Kyro Require Import Model.HotKnn Proofs.HotKnnProofs. Import ListNotations. Open Scope N_scope.",
+    "C07_stored_hot_distance_fresh": "forall (c : N) (m : option N) (es : list ev), fresh (run validate_new (init c m) es) = true",
+    "C07_hot_race_step": "forall s e, Inv s -> Inv (step validate_new s e)",
+}, "Properties.C07": {
     "_preamble": "From Coq Require Import QArith List NArith ZArith Bool Arith Sorting.Sorted. From Kyro Require Import Model.QCache Proofs.QCacheProofs Proofs.QCacheInv Proofs.QCacheEngine Proofs.QCacheKnn. Import ListNotations. Open Scope Q_scope.",
     "C07_prefilter_sound": "forall (m : metric) (p : nat) (q x : vec) (w : Q), length q = length x -> can_affect m p q x w = false -> dist_le m q x w = false",
     "C07_entry_valid": "forall (m : metric) (isd : vec -> vec -> Q -> Prop) (fresh_search : collection -> vec -> nat -> list result) (cfg : config), (forall c q k id d, In (id, d) (fresh_search c q k) -> exists v, c_get c id = Some v /\\ isd q v d) -> (forall c q k, (length (fresh_search c q k) <= k)%nat) -> (forall c q k, StronglySorted rle (fresh_search c q k)) -> (forall c q k id v, (1 <= k)%nat -> c_get c id = Some v -> ~ In id (map fst (fresh_search c q k)) -> length (fresh_search c q k) = k /\\ exists w, worst (fresh_search c q k) = Some w /\\ dist_lt m q v w = false) -> forall (ops : list eop) (e : entry), let st := erun (pre_m m) (dist_le m) fresh_search cfg einit ops in In e (s_entries (e_cache st)) -> Valid (dist_lt m) isd (e_coll st) e",
@@ -23,6 +28,45 @@ PINS = {"Properties.C07": {
 }}
 
 KNOWN_SAT = "C07-quantised-key-saturation"
+
+
+# Source-order anchors of Model/HotKnn.v: (function, fragments that must appear in this order inside it)
+HOT_ANCHORS = [
+    ("engine/src/hot_tier.rs", "pub fn knn_search_with_coherence",
+     ["let docs = self.documents.read();", "docs.get(&item.doc_id)", "doc.coherence"]),
+    ("engine/src/tiered_engine.rs", "fn filter_hot_knn_results_to_canonical",
+     ["searched_coherence", "self.hot_tier.peek_with_coherence(doc_id)", "if hot_coherence != searched_coherence {", "return None;",
+      "self.canonical_vector_state("]),
+    ("engine/src/tiered_engine.rs", "pub fn insert(",
+     ["self.cold_tier", ".insert(doc_id, embedding.clone(), metadata.clone())?;", "self.query_cache.invalidate_doc(doc_id)",
+      ".invalidate_for_insert(&embedding, self.config.hnsw_distance)", ".insert_with_coherence(doc_id, embedding, metadata, coherence)"]),
+]
+
+
+def hot_anchor_misses():
+    """The model's step order (distance and token under one lock; token comparison before the canonical
+    check; cold write, invalidation, mirror refresh) read off the source text."""
+    misses = []
+    for rel, fn, frags in HOT_ANCHORS:
+        try:
+            src = open(os.path.join("/repo", rel)).read()
+        except OSError:
+            misses.append({"file": rel, "fn": fn, "missing": "file"})
+            continue
+        i = src.find(fn)
+        if i < 0:
+            misses.append({"file": rel, "fn": fn, "missing": "function"})
+            continue
+        j = src.find("\n    }\n", i)
+        body = src[i:j if j > 0 else len(src)]
+        pos = 0
+        for f in frags:
+            k = body.find(f, pos)
+            if k < 0:
+                misses.append({"file": rel, "fn": fn, "missing": f})
+                break
+            pos = k + len(f)
+    return misses
 
 
 def _eval_shards(ctx, out, summ):
@@ -70,7 +114,12 @@ def run(ctx):
         "engine model: vectors already normalised (cosine/inner product normalisation is idempotent — C02's hypothesis); statistics, cached_at and non-finite floats are not modelled; each cache method is one atomic step (state RwLock) and an invalidation is 'bump generation, then remove under the lock'",
         "engine-level stream E uses the Euclidean metric and similarity threshold 1.0 so that a hit is always the entry of the identical query (a similarity hit serves another query's list by design, see C07_hit_same_or_similar); components range up to 7 (outside the unit box)",
     ]
-    proofs_ok = ctx.proof_phase(["Properties/C07.vo"], THEOREMS, pins=PINS)
+    ctx.trusted += [
+        "Model/HotKnn.v (one hot-tier candidate of a search racing with overwrites; versions stand for vector+token) is hand-written; it is tied to the code by source-order anchors (distance and token read under one lock in HotTier::knn_search_with_coherence; token comparison before the canonical check in filter_hot_knn_results_to_canonical; cold write, then invalidation, then mirror refresh in TieredEngine::insert) and by the concurrent stream R on the real engine (schedule dependent)",
+    ]
+    proofs_ok = ctx.proof_phase(["Properties/C07.vo", "Properties/C07race.vo"], THEOREMS, pins=PINS)
+    anchor_misses = hot_anchor_misses()
+    ctx.cov["hot_knn_source_anchors_missing"] = anchor_misses
 
     ok, log = vlib.cargo_build(["c07"])
     ctx.log("cargo.log", log)
@@ -182,6 +231,9 @@ def run(ctx):
         broken.append({"kind": "correspondence", "stream": "H", "disagreeing_pair_ids": r["H_bad"][:20]})
     if r["P_bad"]:
         broken.append({"kind": "correspondence", "stream": "probe"})
+    if anchor_misses:
+        broken.append({"kind": "source-order-anchors", "misses": anchor_misses,
+                       "what": "the step order Model/HotKnn.v encodes (C07_stored_hot_distance_fresh) is no longer the one in the source"})
     if R and not (R.get("order_probe") or {}).get("ok", True):
         broken.append({"kind": "order-tie", "detail": R.get("order_probe"),
                        "what": "TieredEngine::insert/delete no longer invalidate the query cache strictly AFTER the cold-tier write (model EInsert: collection, then invalidate_doc, then invalidate_for_insert; C07_no_store_after_invalidate assumes mutate -> bump)"})
